@@ -331,8 +331,12 @@ def run_case(case):
     if case["hostile"]:
         want = {i: ref[id(t)] for i, t in enumerate(b2["leaves"])}
     else:
-        _invoke(case, b2, None)
-        want = {i: t.grad for i, t in enumerate(b2["leaves"])}
+        try:
+            _invoke(case, b2, None)
+        except Exception as e:  # chunk size None is valid as well
+            return dict(base, ok=False, key="C07.value", what=f"the call with chunk size None failed (m={m})",
+                        observed=f"{type(e).__name__}: {str(e)[:160]}", expected="success")
+        want ={i: t.grad for i, t in enumerate(b2["leaves"])}
     for i, t in enumerate(b1["leaves"]):
         w = want[i]
         if t.grad is None or w is None or not gen.close(t.grad, w, rtol, atol):
